@@ -17,6 +17,7 @@ import (
 	"math/rand"
 	"net/http"
 	"net/http/httptest"
+	"runtime"
 	"sort"
 	"strconv"
 	"strings"
@@ -56,7 +57,7 @@ type c15Entry struct {
 	U []byte
 }
 type c15Event struct {
-	K       string // connected | add | disconnected | gossip | done
+	K       string     // connected | add | disconnected | gossip | done
 	P       *c15Peer   `json:",omitempty"`
 	Ps      []c15Peer  `json:",omitempty"`
 	Lk      []c15Lk    `json:",omitempty"`
@@ -77,6 +78,31 @@ type c15In struct {
 	Conc    [][]c15Event `json:",omitempty"`
 	Readers int          `json:",omitempty"`
 	RunMs   int          `json:",omitempty"`
+	// the discovery machine: a schedule of lists / releases of parked IsConnected answers / context
+	// ends / dial completions / topology events (see c15DiscRun)
+	GActs []c15GAct `json:",omitempty"`
+}
+
+// one action of a discovery-machine schedule
+type c15GAct struct {
+	K       string     // list | check | cancel | done | topo
+	H       int        `json:",omitempty"`
+	ReadOK  bool       `json:",omitempty"`
+	Entries []c15Entry `json:",omitempty"`
+	U       []byte     `json:",omitempty"`
+	R       *c15Peer   `json:",omitempty"` // done: the peer Connect returns, or nil with
+	Why     int        `json:",omitempty"` // the reason of the refusal: 0 undecodable, 1 self, 2 blocked, 3 unreachable
+	Ev      *c15Event  `json:",omitempty"`
+}
+
+// what the driver sees during one action
+type c15DEff struct {
+	K     string // check | dial | add | return
+	H     int
+	Known bool     `json:",omitempty"`
+	U     []byte   `json:",omitempty"`
+	P     *c15Peer `json:",omitempty"`
+	Code  int      `json:",omitempty"`
 }
 type c15Act struct {
 	K   string // start | release | other
@@ -94,13 +120,16 @@ type c15CallObs struct {
 type c15Obs struct {
 	Evs   []c15ObsEv
 	Calls []c15CallObs `json:",omitempty"`
+	GEff  [][]c15DEff  `json:",omitempty"`
+	Peak  int          `json:",omitempty"`
+	Stuck bool         `json:",omitempty"`
 }
 type c15Rec struct {
 	A common.Address
 	U []byte
 }
 type c15Eff struct {
-	K    string // announce | wire | dial | add
+	K    string     // announce | wire | dial | add
 	To   *c15Peer   `json:",omitempty"`
 	Recs []c15Rec   `json:",omitempty"`
 	W    []c15Entry `json:",omitempty"`
@@ -132,10 +161,10 @@ type c15Park struct {
 	ch   chan struct{}
 }
 type c15World struct {
-	gated   bool             // overlapping calls: every NewStream parks until released; effects are kept per call
-	current int              // the call that is running (one goroutine runs at a time)
-	parked  map[int]*c15Park // call -> its parked NewStream
-	callEff map[int][]c15Eff
+	gated       bool             // overlapping calls: every NewStream parks until released; effects are kept per call
+	current     int              // the call that is running (one goroutine runs at a time)
+	parked      map[int]*c15Park // call -> its parked NewStream
+	callEff     map[int][]c15Eff
 	quiet       bool          // concurrent runs: effects are not recorded
 	latency     time.Duration // duration of a mode-3 write
 	hold        time.Duration // duration of a mode-4 write
@@ -148,6 +177,25 @@ type c15World struct {
 	returns     int
 	addCalls    int
 	falseChecks int
+	// discovery machine runs: IsConnected answers park per handler, everything seen is logged
+	disc3       bool
+	gidH        map[int64]int
+	checkParked map[int]chan struct{}
+	checksSeen  map[int]int
+	returned    map[int]bool
+	deff        []c15DEff
+	peak        int
+}
+
+func c15Gid() int64 {
+	var b [64]byte
+	n := runtime.Stack(b[:], false)
+	f := strings.Fields(string(b[:n]))
+	if len(f) < 2 {
+		return -1
+	}
+	id, _ := strconv.ParseInt(f[1], 10, 64)
+	return id
 }
 
 func (w *c15World) record(e c15Eff) {
@@ -208,6 +256,12 @@ func (w *c15World) Connect(_ context.Context, u []byte) (p2p.Peer, error) {
 	w.eff = append(w.eff, c15Eff{K: "dial", U: c.u})
 	w.blocked = append(w.blocked, c)
 	w.arrivals++
+	if w.arrivals-w.returns > w.peak {
+		w.peak = w.arrivals - w.returns
+	}
+	if w.disc3 {
+		w.deff = append(w.deff, c15DEff{K: "dial", U: c.u})
+	}
 	w.mu.Unlock()
 	r := <-c.ch
 	w.mu.Lock()
@@ -257,9 +311,16 @@ func (s *c15OutStream) Close() error { return nil }
 type c15InStream struct {
 	ok   bool
 	list *discoverypb.PeerList
+	w    *c15World // discovery machine runs: the handler's goroutine is made known to the world
+	h    int
 }
 
 func (s *c15InStream) ReadMsg(_ context.Context, m proto.Message) error {
+	if s.w != nil {
+		s.w.mu.Lock()
+		s.w.gidH[c15Gid()] = s.h
+		s.w.mu.Unlock()
+	}
 	if !s.ok {
 		return errors.New("c15: read failed")
 	}
@@ -300,6 +361,11 @@ func (t *c15Topo) AddPeers(ps ...p2p.Peer) {
 	for _, p := range ps {
 		q := c15FromPeer(p)
 		t.w.record(c15Eff{K: "add", P: &q})
+		if t.w.disc3 {
+			t.w.mu.Lock()
+			t.w.deff = append(t.w.deff, c15DEff{K: "add", P: &q})
+			t.w.mu.Unlock()
+		}
 	}
 	t.inner.AddPeers(ps...)
 	t.w.mu.Lock()
@@ -307,6 +373,26 @@ func (t *c15Topo) AddPeers(ps ...p2p.Peer) {
 	t.w.mu.Unlock()
 }
 func (t *c15Topo) IsConnected(a common.Address) bool {
+	if t.w.disc3 {
+		// the answer is held back until the driver releases it; it is computed at that moment
+		t.w.mu.Lock()
+		h, ok := t.w.gidH[c15Gid()]
+		var ch chan struct{}
+		if ok {
+			ch = make(chan struct{})
+			t.w.checkParked[h] = ch
+		}
+		t.w.mu.Unlock()
+		if ok {
+			<-ch
+			r := t.inner.IsConnected(a)
+			t.w.mu.Lock()
+			t.w.deff = append(t.w.deff, c15DEff{K: "check", H: h, Known: r})
+			t.w.checksSeen[h]++
+			t.w.mu.Unlock()
+			return r
+		}
+	}
 	r := t.inner.IsConnected(a)
 	if !r {
 		t.w.mu.Lock()
@@ -533,6 +619,13 @@ func (s *c15Sys) finish() []c15ObsEv {
 }
 
 func c15RunAny(in c15In, slow int) c15Obs {
+	if len(in.GActs) > 0 {
+		d := c15NewDisc(in.Probes, slow)
+		for _, a := range in.GActs {
+			d.do(a)
+		}
+		return d.finish()
+	}
 	if len(in.Acts) > 0 {
 		return c15RunOverlap(in, slow)
 	}
@@ -748,6 +841,400 @@ func (s *c15Sys) parkedCalls() []int {
 	return cs
 }
 
+// --- the discovery machine ---------------------------------------------------------------------------
+// The real Discovery over the fake P2P service (every Connect parks until a "done" action answers it)
+// and a topology whose IsConnected answers park per handler until a "check" action releases them.
+// The driver keeps the little state it needs to know which reaction to wait for (positively) after
+// each action: whether the dispatcher holds a peer, how many dials run, which handler sits in its
+// select.  A reaction that does not come within the watchdog limit ends the run (Stuck).
+const c15Width = 10 // discovery.checkWorkers (unexported); the checker uses the constant regenerated from the source
+
+type c15Disc struct {
+	s        *c15Sys
+	rem      map[int]int // entries a handler has not passed yet (head included)
+	cancels  map[int]context.CancelFunc
+	started  map[int]bool
+	pending  bool // the dispatcher holds a peer and waits for a slot
+	inflight int
+	offerer  int // the handler that sits in its select, -1: none
+	geff     [][]c15DEff
+	mark     int
+	stuck    bool
+	limit    time.Duration
+}
+
+func c15NewDisc(probes []common.Address, slow int) *c15Disc {
+	s := c15New(probes, slow)
+	w := s.w
+	w.disc3 = true
+	w.gidH = map[int64]int{}
+	w.checkParked = map[int]chan struct{}{}
+	w.checksSeen = map[int]int{}
+	w.returned = map[int]bool{}
+	limit := 5 * time.Second * time.Duration(slow)
+	if atomic.LoadInt32(&c15StuckRuns) >= 3 {
+		// something is badly wrong with this tree (no run gets stuck on a healthy one): the remaining
+		// runs are still made and reported, but do not wait as long for reactions that will not come
+		limit = 500 * time.Millisecond * time.Duration(slow)
+	}
+	return &c15Disc{s: s, rem: map[int]int{}, cancels: map[int]context.CancelFunc{}, started: map[int]bool{}, offerer: -1,
+		limit: limit}
+}
+
+var c15StuckRuns int32 // discovery-machine runs of this process that ended stuck
+
+func (d *c15Disc) wait(cond func() bool) bool {
+	if d.stuck {
+		return false
+	}
+	if !d.s.w.waitFor(cond, d.limit) {
+		d.stuck = true
+		atomic.AddInt32(&c15StuckRuns, 1)
+		return false
+	}
+	return true
+}
+
+// handler h has passed an entry: it parks at its next IsConnected or returns
+func (d *c15Disc) passed(h int) {
+	d.rem[h]--
+	w := d.s.w
+	if d.rem[h] > 0 {
+		d.wait(func() bool { return w.checkParked[h] != nil })
+	} else {
+		d.wait(func() bool { return w.returned[h] })
+	}
+}
+
+// the internal steps that are enabled now
+func (d *c15Disc) dispatch() {
+	w := d.s.w
+	for !d.stuck {
+		if d.pending {
+			if d.inflight >= c15Width {
+				return
+			}
+			d.wait(func() bool { return w.arrivals-w.returns == d.inflight+1 })
+			d.inflight++
+			d.pending = false
+		} else if d.offerer >= 0 {
+			h := d.offerer
+			d.offerer = -1
+			d.passed(h)
+			d.pending = true
+		} else {
+			return
+		}
+	}
+}
+
+func (d *c15Disc) do(a c15GAct) {
+	if d.stuck {
+		return
+	}
+	w := d.s.w
+	switch a.K {
+	case "list":
+		if d.started[a.H] {
+			break
+		}
+		d.started[a.H] = true
+		pl := &discoverypb.PeerList{}
+		for _, e := range a.Entries {
+			pl.Peers = append(pl.Peers, &discoverypb.PeerInfo{EthAddress: e.E, Underlay: e.U})
+		}
+		ctx, cancel := context.WithCancel(context.Background())
+		d.cancels[a.H] = cancel
+		h := a.H
+		st := &c15InStream{ok: a.ReadOK, list: pl, w: w, h: h}
+		from := p2p.Peer{Type: p2p.PeerTypeBootnode}
+		go func() {
+			err := d.s.disc.Streams()[0].Handler(ctx, from, st)
+			code := 0
+			switch {
+			case err == nil:
+			case errors.Is(err, context.Canceled):
+				code = 2
+			case strings.Contains(err.Error(), "InvalidArgument"):
+				code = 1
+			default:
+				code = 9
+			}
+			w.mu.Lock()
+			w.deff = append(w.deff, c15DEff{K: "return", H: h, Code: code})
+			w.returned[h] = true
+			w.mu.Unlock()
+		}()
+		if a.ReadOK && len(a.Entries) > 0 {
+			d.rem[h] = len(a.Entries)
+			d.wait(func() bool { return w.checkParked[h] != nil })
+		} else {
+			d.wait(func() bool { return w.returned[h] })
+		}
+	case "check":
+		w.mu.Lock()
+		ch := w.checkParked[a.H]
+		delete(w.checkParked, a.H)
+		n0 := w.checksSeen[a.H]
+		w.mu.Unlock()
+		if ch == nil {
+			break
+		}
+		close(ch)
+		if !d.wait(func() bool { return w.checksSeen[a.H] > n0 }) {
+			break
+		}
+		w.mu.Lock()
+		known := w.deff[len(w.deff)-1].Known
+		for i := len(w.deff) - 1; i >= 0; i-- {
+			if w.deff[i].K == "check" && w.deff[i].H == a.H {
+				known = w.deff[i].Known
+				break
+			}
+		}
+		w.mu.Unlock()
+		if known {
+			d.passed(a.H)
+		} else {
+			d.offerer = a.H
+			d.dispatch()
+		}
+	case "cancel":
+		if c := d.cancels[a.H]; c != nil {
+			c()
+			if d.offerer == a.H && d.pending {
+				d.offerer = -1
+				d.rem[a.H] = 0
+				d.wait(func() bool { return w.returned[a.H] })
+			}
+		}
+	case "done":
+		var call *c15Call
+		w.mu.Lock()
+		for i, c := range w.blocked {
+			if bytes.Equal(c.u, a.U) {
+				call = c
+				w.blocked = append(w.blocked[:i:i], w.blocked[i+1:]...)
+				break
+			}
+		}
+		r0, c0 := w.returns, w.addCalls
+		w.mu.Unlock()
+		if call == nil {
+			break
+		}
+		if a.R != nil {
+			call.ch <- c15Res{p: a.R.peer()}
+			d.wait(func() bool { return w.addCalls > c0 && w.returns > r0 })
+		} else {
+			call.ch <- c15Res{err: errors.New("c15: refused (" + strconv.Itoa(a.Why) + ")")}
+			d.wait(func() bool { return w.returns > r0 })
+		}
+		d.inflight--
+		d.dispatch()
+	default:
+		switch a.Ev.K {
+		case "connected":
+			w.mu.Lock()
+			w.lk = map[c15Peer][]byte{}
+			w.ann = map[c15Peer]int{}
+			w.mu.Unlock()
+			d.s.topo.Connected(a.Ev.P.peer())
+		case "add":
+			var ps []p2p.Peer
+			for _, p := range a.Ev.Ps {
+				ps = append(ps, p.peer())
+			}
+			d.s.topo.AddPeers(ps...)
+		case "disconnected":
+			d.s.topo.Disconnected(a.Ev.P.peer())
+		}
+	}
+	if d.stuck {
+		return
+	}
+	w.mu.Lock()
+	d.geff = append(d.geff, append([]c15DEff{}, w.deff[d.mark:]...))
+	d.mark = len(w.deff)
+	w.mu.Unlock()
+}
+
+func (d *c15Disc) finish() c15Obs {
+	s, w := d.s, d.s.w
+	out := c15Obs{GEff: d.geff, Stuck: d.stuck}
+	if !d.stuck {
+		time.Sleep(2 * time.Millisecond * s.slow) // a dial or an add nobody expected would show up here
+		w.mu.Lock()
+		extra := append([]c15DEff{}, w.deff[d.mark:]...)
+		w.mu.Unlock()
+		if len(extra) > 0 && len(out.GEff) > 0 {
+			out.GEff[len(out.GEff)-1] = append(out.GEff[len(out.GEff)-1], extra...)
+		}
+		o := c15ObsEv{}
+		for _, r := range c15ViewRoles {
+			var v []c15Peer
+			for _, p := range s.topo.GetPeers(topology.Query{Type: p2p.PeerType(r)}) {
+				v = append(v, c15FromPeer(p))
+			}
+			o.Views = append(o.Views, v)
+		}
+		for _, a := range s.probes {
+			o.Conn = append(o.Conn, s.topo.IsConnected(a))
+		}
+		o.Api = s.queryAPI()
+		out.Evs = []c15ObsEv{o}
+	}
+	w.mu.Lock()
+	out.Peak = w.peak
+	w.mu.Unlock()
+	// shut the system down: end every context, answer every parked call until nothing moves
+	for _, c := range d.cancels {
+		c()
+	}
+	deadline := time.Now().Add(2 * time.Second)
+	for time.Now().Before(deadline) {
+		w.mu.Lock()
+		for h, ch := range w.checkParked {
+			close(ch)
+			delete(w.checkParked, h)
+		}
+		blocked := w.blocked
+		w.blocked = nil
+		allBack := w.arrivals == w.returns+len(blocked)
+		for h := range d.started {
+			if !w.returned[h] {
+				allBack = false
+			}
+		}
+		w.mu.Unlock()
+		for _, c := range blocked {
+			c.ch <- c15Res{err: errors.New("c15: shutdown")}
+		}
+		if allBack && len(blocked) == 0 {
+			break
+		}
+		time.Sleep(200 * time.Microsecond)
+	}
+	_ = s.disc.Close()
+	return out
+}
+
+// random schedules, generated while the system runs (the generator looks at the driver's state):
+// lists longer than the pool is wide, entries known / unknown / duplicate / garbage, dials completing
+// in any order with every kind of answer, a handler stuck behind the full pool whose context ends,
+// topology changes in between; most runs are drained at the end and then probed with a fresh list of
+// width+1 unknown entries (exactly width dials must start: every slot has come back).
+func c15DiscRandom(r *rand.Rand, slow int, k int) (c15In, c15Obs) {
+	pool := c15NewPool(r)
+	in := c15In{Probes: pool.probes}
+	d := c15NewDisc(pool.probes, slow)
+	act := func(a c15GAct) {
+		in.GActs = append(in.GActs, a)
+		d.do(a)
+	}
+	for i := r.Intn(4); i > 0; i-- {
+		q := pool.pick(r)
+		act(c15GAct{K: "topo", Ev: &c15Event{K: "connected", P: &q}})
+	}
+	serial := 0
+	fresh := func() c15Entry {
+		serial++
+		a := c15RandAddr(r)
+		return c15Entry{a.Bytes(), []byte("/m/" + strconv.Itoa(serial))}
+	}
+	nextH := 1
+	newList := func(n int, onlyFresh bool) {
+		a := c15GAct{K: "list", H: nextH, ReadOK: onlyFresh || r.Intn(12) != 0}
+		nextH++
+		for i := 0; i < n; i++ {
+			if onlyFresh || r.Intn(3) != 0 {
+				a.Entries = append(a.Entries, fresh())
+			} else {
+				e := pool.entry(r, a.Entries, i)
+				serial++
+				e.U = append(append([]byte{}, e.U...), []byte("#"+strconv.Itoa(serial))...)
+				a.Entries = append(a.Entries, e)
+			}
+		}
+		act(a)
+	}
+	lists := 1 + r.Intn(3)
+	long := k%2 == 0 // every other case fills the pool
+	steps := 10 + r.Intn(50)
+	parkedHandlers := func() []int {
+		d.s.w.mu.Lock()
+		defer d.s.w.mu.Unlock()
+		var hs []int
+		for h := range d.s.w.checkParked {
+			hs = append(hs, h)
+		}
+		sort.Ints(hs)
+		return hs
+	}
+	doneAct := func(u []byte) c15GAct {
+		a := c15GAct{K: "done", U: u, Why: r.Intn(4)}
+		if r.Intn(100) < 45 {
+			a.R = &c15Peer{c15RandAddr(r), 1 + r.Intn(2)}
+			if r.Intn(4) == 0 {
+				q := pool.pick(r)
+				a.R = &q
+			}
+		}
+		return a
+	}
+	for i := 0; i < steps && !d.stuck; i++ {
+		hs := parkedHandlers()
+		blocked := d.s.blockedUnderlays()
+		x := r.Intn(100)
+		switch {
+		case lists > 0 && (len(hs) == 0 || x < 8):
+			n := r.Intn(6)
+			if long {
+				n = 8 + r.Intn(10)
+			}
+			newList(n, false)
+			lists--
+		case x < 60 && len(hs) > 0 && d.offerer < 0:
+			act(c15GAct{K: "check", H: hs[r.Intn(len(hs))]})
+		case x < 66 && d.offerer >= 0 && d.pending:
+			act(c15GAct{K: "cancel", H: d.offerer})
+		case x < 72:
+			q := pool.pick(r)
+			ev := c15Event{K: []string{"connected", "disconnected", "add"}[r.Intn(3)], P: &q}
+			if ev.K == "add" {
+				ev.P = nil
+				ev.Ps = []c15Peer{q, pool.pick(r)}
+			}
+			act(c15GAct{K: "topo", Ev: &ev})
+		case len(blocked) > 0 && (x < 90 || len(hs) == 0 || d.offerer >= 0):
+			act(doneAct(blocked[r.Intn(len(blocked))]))
+		case x >= 97:
+			act(c15GAct{K: "done", U: []byte("/nobody"), Why: 3})
+		}
+	}
+	if r.Intn(10) < 7 && !d.stuck {
+		// drain: let every handler finish and every dial return, in a random order
+		for guard := 0; guard < 400 && !d.stuck; guard++ {
+			hs := parkedHandlers()
+			blocked := d.s.blockedUnderlays()
+			if len(blocked) > 0 && (len(hs) == 0 || d.offerer >= 0 || r.Intn(2) == 0) {
+				act(doneAct(blocked[r.Intn(len(blocked))]))
+			} else if len(hs) > 0 && d.offerer < 0 {
+				act(c15GAct{K: "check", H: hs[r.Intn(len(hs))]})
+			} else {
+				break
+			}
+		}
+		if !d.stuck && d.inflight == 0 && !d.pending && d.offerer < 0 {
+			newList(c15Width+1, true)
+			for i := 0; i < c15Width+1 && !d.stuck; i++ {
+				act(c15GAct{K: "check", H: nextH - 1})
+			}
+		}
+	}
+	return in, d.finish()
+}
+
 // --- Coq terms ------------------------------------------------------------------------------------
 
 // Large literals are bound once per case with let (parsing a 160-bit numeral or a byte string
@@ -870,6 +1357,46 @@ func c15CoqCase(id int, in c15In, full c15Obs) string {
 	if len(in.Acts) > 0 {
 		mode = 2
 	}
+	if len(in.GActs) > 0 {
+		mode = 3
+	}
+	var gacts, geffs []string
+	for _, a := range in.GActs {
+		switch a.K {
+		case "list":
+			gacts = append(gacts, coqApp("GList", coqN(uint64(a.H)), coqBool(a.ReadOK), c15CoqEntries(a.Entries)))
+		case "check":
+			gacts = append(gacts, coqApp("GCheck", coqN(uint64(a.H))))
+		case "cancel":
+			gacts = append(gacts, coqApp("GCancel", coqN(uint64(a.H))))
+		case "done":
+			res := coqApp("DialErr", []string{"RUndecodable", "RSelf", "RBlocked", "RUnreachable"}[a.Why&3])
+			if a.R != nil {
+				res = coqApp("DialOk", c15CoqPeer(*a.R))
+			}
+			gacts = append(gacts, coqApp("GDone", coqBytesI(a.U), res))
+		default:
+			gacts = append(gacts, coqApp("GTopo", c15CoqEvent(*a.Ev)))
+		}
+	}
+	for _, l := range full.GEff {
+		var es []string
+		for _, e := range l {
+			switch e.K {
+			case "check":
+				es = append(es, coqApp("XCheck", coqN(uint64(e.H)), coqBool(e.Known)))
+			case "dial":
+				es = append(es, coqApp("XDial", coqBytesI(e.U)))
+			case "add":
+				es = append(es, coqApp("XAdd", c15CoqPeer(*e.P)))
+			default:
+				es = append(es, coqApp("XReturn", coqN(uint64(e.H)), coqN(uint64(e.Code))))
+			}
+		}
+		geffs = append(geffs, "(("+coqList(es)+") : list deffect)")
+	}
+	disc := coqApp("mkDisc", "(("+coqList(gacts)+") : list gaction)", "(("+coqList(geffs)+") : list (list deffect))",
+		coqN(uint64(full.Peak)), coqBool(full.Stuck))
 	for _, ev := range in.Evs {
 		evs = append(evs, c15CoqEvent(ev))
 	}
@@ -907,7 +1434,8 @@ func c15CoqCase(id int, in c15In, full c15Obs) string {
 	}
 	roles := coqList([]string{coqZ(int64(p2p.PeerTypeBootnode)), coqZ(int64(p2p.PeerTypeProvider)), coqZ(int64(p2p.PeerTypeBidder))})
 	body := coqRecord("id", coqN(uint64(id)), "c_mode", coqN(uint64(mode)), "c_roles", roles, "probes", coqList(pr), "evs", coqList(evs), "obs", coqList(os),
-		"c_acts", "(("+coqList(acts)+") : list action)", "c_calls", "(("+coqList(calls)+") : list (N * bool * list effect))")
+		"c_acts", "(("+coqList(acts)+") : list action)", "c_calls", "(("+coqList(calls)+") : list (N * bool * list effect))",
+		"c_disc", disc)
 	return "(" + strings.Join(c15N.defs, "") + body + ")"
 }
 
@@ -1366,6 +1894,10 @@ func TestVerifC15(t *testing.T) {
 			in = c15OverlapDirected(e.rng)
 		}
 		emitAny("overlap", in, c15RunAny(in, e.Slow))
+	}
+	for i := 0; i < e.N/8; i++ {
+		in, obs := c15DiscRandom(e.rng, e.Slow, i)
+		emitAny("discovery-machine", in, obs)
 	}
 	nc, runMs := 3, 150
 	if e.Tier == "thorough" {
